@@ -494,6 +494,53 @@ theorem q_progress {g : Graph} {cfg : Cfg} (hwk : 1 ≤ cfg.workers) {s : StQ} (
       omega
   | returned i => exact absurd hc (hnf i)
 
+/-! ### no queued item waits for a sleeper -/
+
+theorem idle_indices (ws : List W) :
+    ∃ l : List Nat, l.Nodup ∧ (∀ w ∈ l, ws[w]? = some W.idle) ∧ l.length = ws.countP W.isIdle := by
+  induction ws with
+  | nil => exact ⟨[], by simp, by simp, by simp⟩
+  | cons a t ih =>
+    obtain ⟨l, hn, hi, hl⟩ := ih
+    have hn' : (l.map (· + 1)).Nodup := hn.map (fun a b h => by simpa using h)
+    have hi' : ∀ w ∈ l.map (· + 1), (a :: t)[w]? = some W.idle := by
+      intro w hw
+      obtain ⟨w0, hw0, rfl⟩ := List.mem_map.mp hw
+      simpa using hi w0 hw0
+    by_cases ha : a = W.idle
+    · subst ha
+      refine ⟨0 :: l.map (· + 1), ?_, ?_, ?_⟩
+      · exact List.nodup_cons.mpr ⟨by simp, hn'⟩
+      · intro w hw
+        rcases List.mem_cons.mp hw with h0 | h1
+        · subst h0; simp
+        · exact hi' w h1
+      · simp [List.countP_cons, W.isIdle, hl]
+    · refine ⟨l.map (· + 1), hn', hi', ?_⟩
+      have : W.isIdle a = false := by cases a <;> simp_all [W.isIdle]
+      simp [this, hl]
+
+/-- FULL USE OF THE POOL survives sleeping: in every reachable state there are at least
+    `min (queued items) (idle workers)` idle workers that are AWAKE — each of them can take a queued item at once
+    (`getTake`), so no ready item waits because the worker that should take it was never notified. -/
+theorem q_parallel {g : Graph} {cfg : Cfg} {s : StQ} (hr : ReachQ g cfg s) :
+    ∃ l : List Nat, l.Nodup ∧ (∀ w ∈ l, s.c.ws[w]? = some W.idle ∧ w ∉ s.sleep) ∧
+      min s.c.queue.length (s.c.ws.countP W.isIdle) ≤ l.length := by
+  have hi := qinv_reach hr
+  cases hs : s.sleep with
+  | nil =>
+    obtain ⟨l, hn, hidle, hl⟩ := idle_indices s.c.ws
+    exact ⟨l, hn, fun w hw => ⟨hidle w hw, by simp⟩, by omega⟩
+  | cons x t =>
+    have hq1 := hi.q1 (by rw [hs]; simp)
+    refine ⟨s.woken, hi.wkNodup, fun w hw => ⟨hi.wkIdle w hw, ?_⟩, by omega⟩
+    rw [← hs]; exact hi.wkNotSl w hw
+
+theorem getTake_enabled {g : Graph} {cfg : Cfg} {s : StQ} {w : Nat} {i : Item}
+    (hw : s.c.ws[w]? = some W.idle) (hns : w ∉ s.sleep) (hq : i ∈ s.c.queue) :
+    (stepQ? g cfg s (.getTake w i)).isSome := by
+  simp [stepQ?, hns, step?, hw, hq]
+
 /-! ### every run of the wake-up model is finite -/
 
 theorem sleep_nodup_step {g : Graph} {cfg : Cfg} {s s' : StQ} {l : LabelQ} (hn : s.sleep.Nodup)
